@@ -28,7 +28,11 @@ func c06Accept(c *core.Ctx, rule string) {
 	}
 	n := 0
 	upper := false
-	for _, b := range recv.Blocks {
+	var blocks []*ssa.BasicBlock
+	for _, g := range withHelpers(recv) {
+		blocks = append(blocks, g.Blocks...)
+	}
+	for _, b := range blocks {
 		iff, ok := b.Instrs[len(b.Instrs)-1].(*ssa.If)
 		if !ok {
 			continue
